@@ -29,25 +29,29 @@ def Range.intersect (a b : Range) : Option Range :=
   let sets := Range.intersectSets a b
   if sets.isEmpty then none else some sets
 
+/-- removing `righty` from one remaining piece, in front of what the later pieces left; `none` = panic -/
+def diffStepF (righty : BoundSet) (piece : BoundSet) (acc : Option (List BoundSet)) : Option (List BoundSet) :=
+  match acc, piece.difference righty with
+  | none, _ => none
+  | _, .panic => none
+  | some rest, .none => some rest
+  | some rest, .some l => some (l ++ rest)
+
 /-- one step of the inner loop of `Range::difference`: remove `righty` from every remaining piece -/
 def diffStep (remaining : List BoundSet) (righty : BoundSet) : Option (List BoundSet) :=
-  remaining.foldr (fun piece acc =>
-    match acc, piece.difference righty with
-    | none, _ => none
-    | _, .panic => none
-    | some rest, .none => some rest
-    | some rest, .some l => some (l ++ rest)) (some [])
+  remaining.foldr (diffStepF righty) (some [])
 
 /-- what is left of one alternative after removing all alternatives of `other`; `none` = panic -/
 def diffAlt (lefty : BoundSet) (other : Range) : Option (List BoundSet) :=
   other.foldl (fun rem righty => rem.bind (diffStep · righty)) (some [lefty])
 
+def diffPiecesF (b : Range) (lefty : BoundSet) (acc : Option (List BoundSet)) : Option (List BoundSet) :=
+  match diffAlt lefty b, acc with
+  | some l, some rest => some (l ++ rest)
+  | _, _ => none
+
 /-- all remainders, alternative by alternative of `a`; `none` = panic -/
-def diffPieces (a b : Range) : Option (List BoundSet) :=
-  a.foldr (fun lefty acc =>
-    match diffAlt lefty b, acc with
-    | some l, some rest => some (l ++ rest)
-    | _, _ => none) (some [])
+def diffPieces (a b : Range) : Option (List BoundSet) := a.foldr (diffPiecesF b) (some [])
 
 /-- `Range::difference`; outer `none` = panic -/
 def Range.difference (a b : Range) : Option (Option Range) :=
